@@ -755,11 +755,15 @@ impl Range {
 
         let content_range_is_not_parsed = content_range.body.len() == 0;
 
-        if string.trim().len() != 0 && !is_opening_boundary_read && !string.contains(boundary.as_str()) {
+        // a delimiter is a line that starts with two hyphens followed by the boundary,
+        // the boundary text inside a body line is part of the body
+        let delimiter = [SYMBOL.hyphen, SYMBOL.hyphen, boundary.as_str()].join(SYMBOL.empty_string);
+
+        if string.trim().len() != 0 && !is_opening_boundary_read && !string.starts_with(delimiter.as_str()) {
             return Err("Response body doesn't start with a boundary".to_string())
         }
 
-        if string.contains(boundary.as_str()) && content_range_is_not_parsed {
+        if string.starts_with(delimiter.as_str()) && content_range_is_not_parsed {
             if !is_opening_boundary_read {
                 is_opening_boundary_read = true;
             }
@@ -871,7 +875,7 @@ impl Range {
 
                 string = boxed_line.unwrap();
 
-                is_not_boundary = !string.contains(boundary.as_str());
+                is_not_boundary = !string.starts_with(delimiter.as_str());
 
                 if is_not_boundary {
                     body = [body, buf.to_vec()].concat();
